@@ -173,7 +173,7 @@ PROPERTIES = {
     'C14': dict(
         units=['tls_config', 'enum_certs'],
         canaries=['tls_config', 'certs'],
-        extra=[validate.network_names, validate.cert_corpus],
+        extra=[validate.network_names, validate.claimed_name_grid, validate.cert_corpus],
         counterexample=cex.cex_names,
         scope='GLUE ONLY. Proved (Verus, unit tls_config): a dial always asks for the node\'s PRIMARY network name; the node presents a certificate self-signed for that name; the dialer\'s '
               'verifier is anemo\'s CertVerifier configured for exactly the primary name, the listener\'s for the primary (and alternate) name and no other; the TLS configurations install exactly '
